@@ -64,8 +64,11 @@ package persistedretry
 //@   loop 0 invariant done: forall i int :: 0 <= i && i <= rangeindex ==> m.store.st[tasks[i]] == 2
 //@   loop 0 invariant rest: forall u Task :: (u in m.store.st) && m.store.st[u] == 1 ==> (exists i int :: rangeindex < i && i < len(tasks) && tasks[i] == u)
 
-// The retry poll re-queues only tasks the store reports as failed.
+// The retry poll re-queues only tasks the store reports as failed, and it considers every one of
+// them: the loop is left only when the list is exhausted (one task that is not yet eligible must not
+// hide the tasks listed after it).
 //@ func manager.pollRetries
+//@   loop 0 visits_all
 //@   requires mgr(m) && m.retries != nil
 //@   modifies map m.store.st, sent(m.retries)
 //@   assert only_failed_tasks: at manager.retry#0 :: (t in m.store.st)
